@@ -24,6 +24,9 @@ struct FeltBin;
 
 impl Sub for FeltBin {
     type Case = BinRow;
+    fn restrictable(&self) -> bool {
+        true
+    }
     fn name(&self) -> &'static str {
         "felt_binop"
     }
@@ -83,6 +86,9 @@ struct FeltUn;
 
 impl Sub for FeltUn {
     type Case = UnCase;
+    fn restrictable(&self) -> bool {
+        true
+    }
     fn name(&self) -> &'static str {
         "felt_unop"
     }
@@ -154,6 +160,9 @@ struct BatchInv;
 
 impl Sub for BatchInv {
     type Case = BatchCase;
+    fn restrictable(&self) -> bool {
+        true
+    }
     fn name(&self) -> &'static str {
         "felt_batch_inverse"
     }
